@@ -18,6 +18,12 @@ def prop(pid, **kw):
     PROPS[pid] = kw
 
 
+MANAGER_STEPS = dict(harness='c05_manager_steps',
+                     covers=['dial.ok', 'dial.err', 'dial_address.ok', 'dial_address.err', 'open.opened', 'open.failed', 'dialed.accept',
+                             'dialed.failure', 'inbound.accept', 'inbound.limit', 'closed'],
+                     min_paths=1000, split={'quick': 5, 'thorough': 6}, params={'quick': {'steps': 3}, 'thorough': {'steps': 4}},
+                     conform={'quick': 60, 'thorough': 500}, nvals=30)
+
 prop('C05',
      explanation='Bounded symbolic execution (mirsym: MIR -> z3) of the real transport-manager dial/connection handlers from symbolic '
                  'pre-states; every branch feasibility and every check is an SMT query; counterexamples are replayed on the native build.',
@@ -28,6 +34,7 @@ prop('C05',
               conform={'quick': 60, 'thorough': 1000}, nvals=24),
          dict(harness='c05_dial_address', covers=['c05.dial.accepted', 'c05.dial.refused'], min_paths=3, split=0,
               conform={'quick': 60, 'thorough': 500}, nvals=8),
+         MANAGER_STEPS,
      ],
      bounds={'peers': 1, 'connection ids': '64-bit symbolic', 'limits': 'None/1/2 per direction', 'steps': 1},
      outside=['TransportManager::next (tokio::select! loop)', 'TCP transport internals (sockets, timers)'],
@@ -47,15 +54,24 @@ prop('C04',
      )
 
 prop('C15',
-     explanation='Bounded model checking of the real FindNodeContext (all methods, including the generated U256 arithmetic) against a '
-                 'ledger, over every schedule of next_action / reply(with solver-chosen advertised subsets) / failure / time-out events.',
+     explanation='Bounded model checking of the real iterative-lookup state machines (FindNodeContext incl. the generated U256 arithmetic, '
+                 'GetRecordContext, GetProvidersContext) against ledgers, over every schedule of next_action / reply (with solver-chosen '
+                 'advertised subsets, records, providers) / failure / time-out events within the step bound.',
      units=[
          dict(harness='c15_find_node', covers=['c15.send', 'c15.response', 'c15.peer-failure', 'c15.timeout', 'c15.succeeded', 'c15.failed', 'c15.wait'],
-              min_paths=1000, split={'quick': 8, 'thorough': 9}, params={'quick': {'steps': 3}, 'thorough': {'steps': 4}},
+              min_paths=1000, split={'quick': 8, 'thorough': 9}, params={'quick': {'steps': 4}, 'thorough': {'steps': 5}},
+              conform={'quick': 60, 'thorough': 500}, nvals=40),
+         dict(harness='c15_get_record', covers=['c15r.send', 'c15r.response', 'c15r.peer-failure', 'c15r.succeeded', 'c15r.failed', 'c15r.wait'],
+              min_paths=1000, split={'quick': 8, 'thorough': 9}, params={'quick': {'steps': 3}, 'thorough': {'steps': 5}},
+              conform={'quick': 60, 'thorough': 500}, nvals=40),
+         dict(harness='c15_get_providers', covers=['c15p.send', 'c15p.response', 'c15p.peer-failure', 'c15p.succeeded', 'c15p.failed', 'c15p.wait'],
+              min_paths=1000, split={'quick': 8, 'thorough': 9}, params={'quick': {'steps': 3}, 'thorough': {'steps': 5}},
               conform={'quick': 60, 'thorough': 500}, nvals=40),
      ],
-     bounds={'peers': 3, 'steps': 'quick 3, thorough 4', 'replication': '1..2', 'parallelism': '1..2'},
-     outside=['QueryEngine wiring', 'network I/O'],
+     bounds={'peers': 3, 'steps': 'find_node: quick 4, thorough 5; get_record/get_providers: quick 3, thorough 5',
+             'replication': '1..2 (symbolic)', 'parallelism': '1..2 (symbolic)',
+             'distances': 'pairwise distinct, ordered (symmetry reduction), 8-bit'},
+     outside=['QueryEngine wiring', 'network I/O', 'more than 3 peers, lookups longer than the step bound'],
      )
 
 prop('C16',
